@@ -20,10 +20,13 @@ import (
 )
 
 const (
-	repo   = "/repo"
 	verif  = "/verif"
 	modpfx = "github.com/cenkalti/rain/v2/zzverif/"
 )
+
+// repo is the tree the overlay is generated from and applied to (default /repo; -repo for scratch copies
+// used when a seeded change is tested without touching /repo).
+var repo = "/repo"
 
 var gen string
 
@@ -32,8 +35,11 @@ func die(f string, a ...any) { fmt.Fprintf(os.Stderr, "mkoverlay: "+f+"\n", a...
 func main() {
 	variant := flag.String("variant", "lab", "lab | thread | plain")
 	out := flag.String("o", "", "overlay json path")
+	repoFlag := flag.String("repo", "/repo", "repository tree")
+	tag := flag.String("tag", "", "suffix for the generated-files directory (parallel runs)")
 	flag.Parse()
-	gen = filepath.Join(verif, ".build", "gen", *variant)
+	repo = *repoFlag
+	gen = filepath.Join(verif, ".build", "gen", *variant+*tag)
 	os.RemoveAll(gen)
 	os.MkdirAll(gen, 0o755)
 	ov := map[string]string{}
